@@ -355,7 +355,7 @@ def run(ctx):
                               dict(kind="swap", key=list(key), olds=[list(o) for o in olds], choices=choices, code=code))
     # vacuity guard: the enumeration must have produced acceptances and each rejection class
     for need in ("ACC", "BTX", "FTX"):
-        if need not in statuses:
+        if need not in statuses and not seen:  # (with violations on record a missing class is part of the finding)
             from vf.runner import HarnessError
 
             raise HarnessError(f"C11 vacuous: status {need} never produced (got {sorted(statuses)})")
@@ -377,7 +377,7 @@ def run(ctx):
                         if sig not in seen:
                             seen.add(sig)
                             ctx.violation(sig, text, dict(kind="ballistic", ev=ev, ca=ca, cb=cb, B=B, M=M))
-    if n_bal_changed < 10:
+    if n_bal_changed < 10 and not seen:
         from vf.runner import HarnessError
 
         raise HarnessError(f"C11 vacuous: only {n_bal_changed} accepted ballistic swaps changed a path")
